@@ -260,6 +260,23 @@ func genRobust(t *rapid.T, proto string, envs map[string]*wire.GenEnv, amplify b
 		case "sflow":
 			d := wire.GenSFDatagram(t)
 			note := "valid"
+			if mutate && rapid.IntRange(0, 2).Draw(t, "cutheader") == 0 {
+				// sampled headers cut at a drawn octet (inside the Ethernet, IP or transport header)
+				for si := range d.Samples {
+					if f := d.Samples[si].Flow; f != nil {
+						for ri := range f.Recs {
+							if f.Recs[ri].Raw != nil {
+								n := len(f.Recs[ri].Raw.Pkt.Bytes())
+								if n > 80 {
+									n = 80
+								}
+								f.Recs[ri].Raw.Cut = 1 + rapid.IntRange(0, n).Draw(t, "cutat")
+								note = "cut-sampled-header"
+							}
+						}
+					}
+				}
+			}
 			if mutate && rapid.IntRange(0, 2).Draw(t, "weirdl4") == 0 {
 				// sampled packets of protocols the collector has no transport decoder for, IPv6 extension-header chains
 				for si := range d.Samples {
